@@ -1938,6 +1938,15 @@ class Engine:
         toks = [t for t in s.toks if not (t[0] == 'mod')]
         if len(s.toks) == 1 and s.toks[0][0] == 'mod':
             return self.parse_number(s.toks[0][2], what)
+        if what == 'complex' and any(t[0] == 'conv' for t in s.toks):
+            return self.parse_complex_tokens(s)
+        if len(toks) == 1 and toks[0][0] == 'conv':
+            spec, v = toks[0][1], toks[0][2]
+            if spec[-1] in 'gGeEf' and what in ('float', 'complex'):
+                return v
+            if spec[-1] == 'd' and is_intlike(v):
+                return v if what == 'int' else (SV(term(v, True), 'real') if isinstance(v, SV) else Fraction(v))
+            raise PyRaise('ValueError', ('%s() of a %s conversion' % (what, spec),))
         if len(toks) != 1 or toks[0][0] != 'fld':
             raise EngineError('number conversion of a composite abstract string %r' % (s,))
         _, value, kind, text = toks[0]
@@ -1947,6 +1956,44 @@ class Engine:
         if what == 'float' and kind == 'int':
             return SV(term(value, True), 'real') if isinstance(value, SV) else Fraction(value)
         return value
+
+    def parse_complex_tokens(self, s):
+        """complex() applied to text built from %g-style conversions: the rendering classes of every
+        conversion (negative / zero / positive) are enumerated by forking; each class is rendered with
+        representative digits by Python's own % operator and given to Python's own complex() parser;
+        the parse result must put the representatives into the right slots."""
+        convs = [t for t in s.toks if t[0] == 'conv']
+        reps = []
+        for k, t in enumerate(convs):
+            v = t[2]
+            if self.decide(r_cmp('<', v, 0)):
+                reps.append(-(2.5 + k))
+            elif self.decide(r_cmp('==', v, 0)):
+                reps.append(0.0)
+            else:
+                reps.append(2.5 + k)
+        txt = ''
+        it = iter(reps)
+        for t in s.toks:
+            if t[0] == 'lit':
+                txt += t[1]
+            elif t[0] == 'conv':
+                txt += t[1] % next(it)
+            else:
+                raise EngineError('complex() of %r' % (s,))
+        try:
+            z = complex(txt)
+        except ValueError:
+            raise PyRaise('ValueError', ('complex() rejects %r' % txt,))
+        # which conversion ended up in which part?
+        def slot(x):
+            for k, rp in enumerate(reps):
+                if rp != 0 and abs(x - rp) < 1e-9:
+                    return convs[k][2]
+            if x == 0:
+                return 0
+            raise PyRaise('ValueError', ('complex() of %r gives %r: a value in no slot' % (txt, z),))
+        return CX(slot(z.real), slot(z.imag))
 
     def str_eq(self, a, b):
         for x, y in ((a, b), (b, a)):
